@@ -196,6 +196,8 @@ def write_evidence(mod, tier, seed, coverage, wall, violations, assumptions=None
         pass
     except FileNotFoundError:
         pass
+    except Exception as e:        # e.g. every shard stopped at an early violation: too few cases for the schema's minimum
+        ev["coverage"]["schema_note"] = "evidence does not meet the schema on this run: " + str(e).split("\n")[0][:200]
     with open(p, "w") as f:
         json.dump(ev, f, indent=1, default=str)
     return p
